@@ -12,7 +12,7 @@ def run(pid, tier, seed, replay=None):
     wd = vlib.workdir("c14")
     try:
         cases = []
-        res = vlib.run_tlc("MC_Conv", "MC_Conv_%s.cfg" % tier, tag="mcconv", sink=cases.append, timeout=3000)
+        res = vlib.run_tlc("MC_Conv", "MC_Conv_%s.cfg" % tier, tag="mcconv", sink=cases.append, timeout=3300, env={"CONVSALT": str(seed)})
         if res.rc != 0 or res.violated or not cases:
             raise vlib.Infra("MC_Conv failed: %s\n%s" % (res.violated, res.out[-1500:]))
         ck.add_tlc("MC_Conv", res)
@@ -46,7 +46,7 @@ def run(pid, tier, seed, replay=None):
         ck.cov["evaluations"] = npts
         ck.cov["distinct_nontrivial"] = len(cases)
         ck.cov["pairs_order_kernelknots"] = sorted({(c["n"], len(c["tau"])) for c in cases})
-        ck.cov["rule"] = "TLC-enumerated (source spline, kernel) pairs with order + kernel knots - 1 <= 6 (32-bit exact arithmetic), every half-integer point of the convolved knot range; each as 1-D table and as dimension 0 / 1 of separable 2-D and 3-D tables"
+        ck.cov["rule"] = ("TLC-enumerated (source spline, kernel) pairs: orders 0..5 x three integer knot families x two lengths x every unit coefficient vector and one mixed vector, kernels = increasing 2..7-point subsets of a half-integer lattice (a seed-rotated 1/Keep sample) plus a hand-written catalogue; order + kernel degree limited per family by 32-bit exact arithmetic (5..7); every half-integer point of the convolved knot range; each as 1-D table and as dimension 0 / 1 of separable 2-D and 3-D tables")
         return ck.finish(exhaustive=False)
     finally:
         if not os.environ.get("VERIF_KEEP"):
